@@ -20,11 +20,12 @@ SPEC = {
     "classes": {1: "f32-overflow-accepted-as-infinity", 2: "id-rejects-integer-above-i64-max",
                 3: "float-nonfinite-not-roundtrip"},
     "allowed_axioms": frozenset(),
-    "n_quick": 3000, "n_thorough": 40000,
+    "n_quick": 1600, "n_thorough": 40000,
     "level": "proof",
     "what_violation": "a built-in scalar accepts a value outside its domain, rejects one inside it, or does not round-trip",
     "rule": ("every value kind (absent, null, boundary integers, float classes, strings, booleans, binary, enum names, lists, "
-             "objects) offered to each of the 30 scalar mappings through InputType::parse; to_value + parse back for fixed and "
+             "objects) offered to each of the 30 scalar mappings through InputType::parse (the non-numeric mappings see a thinned "
+             "selection of the boundary numbers); every ASCII char alone and doubled for char; to_value + parse back for fixed and "
              "random Rust values; SWEEP lines each stand for every integer of a window (all of [-70000,70000], i.e. every "
              "8/16-bit value and its surroundings, plus windows at the 32/63/64-bit boundaries) offered to one of the 20 "
              "integer mappings, SWEEPTV lines for every value of the 8/16-bit types and their NonZero forms; one evaluation "
